@@ -125,7 +125,8 @@ class Gen:
 
     def node(self, indent, depth):
         r = self.r
-        keys = r.sample(["alpha", "beta", "gamma", "delta", "eps", "zeta"], r.randrange(2, 5))
+        # '&S1' / '&k': keys spelled like an anchor reference (S1 is also the name of the first anchored secret)
+        keys = r.sample(["alpha", "beta", "gamma", "delta", "eps", "zeta", '"&S1"', '"&k"'], r.randrange(2, 5))
         for k in keys:
             x = r.random()
             if depth < 2 and x < 0.25:
